@@ -660,7 +660,7 @@ bool Process::open(const String& executable, int argc, char* const argv[], uint 
     {
       int r = vfork();
       if (r == -1)
-        return false;
+        goto error;
       else if (r != 0) // parent
       {
         pid = r;
